@@ -15,7 +15,7 @@ from .c01 import draw_fmt, fmt_tag
 ID = "C05"
 PROBES = ['probe_sessions', 'category_sets_compared', 'sites_judged']  # reach probes: counters that must be non-zero in a run (a zero is printed and recorded)
 LEVEL = "exploration"
-BUDGET = {"quick": 1200, "thorough": 60000}
+BUDGET = {"quick": 1200, "thorough": 30000}
 WALL = {"quick": 240, "thorough": 3000}
 TECHNIQUE = "deterministic simulation: seeded multi-session histories checked step by step against an executable reference model of the categories"
 LEVEL_TEXT = ("seeded search over histories (1-4 sessions with arbitrary approved subsets, observation edits in between) of generated "
